@@ -4,6 +4,10 @@ package engine
 
 // Contracts for the Engine.IO server and session (comment-only; read by /verif/govc).
 
+// two imported packages are named "webtransport": the repository's framing layer (webtrans in server.go) and the
+// webtransport-go dependency, which gets its own alias here
+//@ import wtgo "github.com/zishang520/webtransport-go"
+
 // ---- C05: the documented error table (README.md, "connection_error") -------------------------------
 //@ func init()
 //@   props C05
@@ -556,10 +560,24 @@ package engine
 //@   requires s != nil && s.BaseServer != nil && ctxOK(ctx) && wt != nil
 //@   requires ctx.Websocket == nil && ctx.WebTransport == nil   // a request context that no upgrade handler has touched yet
 //@   dyncall allowRequest pure
-//@   opt stopafter = (*webtrans.Conn).NextReader#1
 //@   modifies *
 //@   callsite (*webtrans.Conn).NextReader#1
 //@     assert [C10.wtlimit] wtc.readLimit == s.BaseServer.Opts().MaxHttpBufferSize() && calls((*webtrans.Conn).SetReadLimit) == 1
+// the paths through the stream set-up are joined once the first message has been read: what follows (the gating of the
+// candidate transport) is verified from any state in which that message is in hand
+//@   cutafter utils.ClearTimeout#1
+//@     invariant s.BaseServer != nil && ctxOK(ctx) && session != nil && data != nil
+//@     invariant ctx.Websocket == nil && wtcOK(ctx.WebTransport)
+//@     invariant calls(utils.ClearTimeout) == 1 && calls(abortUpgrade) == 0 && calls(BaseServer.Handshake) == 0 && calls(Socket.MaybeUpgrade) == 0 && calls((*wtgo.Session).CloseWithError) == 0 && calls((*server).CreateTransport) == 0 && calls((*types.Map).Load) == 0
+//@   let tail    = calls(utils.ClearTimeout) == 1
+//@   let gated   = tail && calls((*types.Map).Load) == 1
+//@   ensures [C05.wt.notopen]  tail && ret(parser.Parser.DecodePacket, 1, 0).Type != packet.OPEN ==> calls(abortUpgrade) == 1 && arg(abortUpgrade, 1, codeMessage) == BAD_REQUEST && calls(BaseServer.Handshake) == 0 && calls(Socket.MaybeUpgrade) == 0
+//@   ensures [C05.wt.onehs]    calls(BaseServer.Handshake) <= 1 && (calls(BaseServer.Handshake) == 1 ==> calls(Socket.MaybeUpgrade) == 0 && arg(BaseServer.Handshake, 1, ctx) == ctx)
+//@   ensures [C05.wt.hsreject] calls(BaseServer.Handshake) == 1 && ret(BaseServer.Handshake, 1, 1) == nil ==> calls(abortUpgrade) == 1 && arg(abortUpgrade, 1, codeMessage) == ret(BaseServer.Handshake, 1, 0)
+//@   ensures [C08.wt.unknown]  gated && !ret((*types.Map).Load, 1, 1) ==> calls((*wtgo.Session).CloseWithError) == 1 && calls(Socket.MaybeUpgrade) == 0 && calls(BaseServer.Handshake) == 0
+//@   ensures [C08.wt.busy]     gated && ret((*types.Map).Load, 1, 1) && (ret(Socket.Upgrading, 1) || ret(Socket.Upgraded, 1)) ==> calls((*wtgo.Session).CloseWithError) == 1 && calls(Socket.MaybeUpgrade) == 0 && calls((*server).CreateTransport) == 0
+//@   ensures [C08.wt.admit]    calls(Socket.MaybeUpgrade) <= 1 && (calls(Socket.MaybeUpgrade) == 1 ==> gated && ret((*types.Map).Load, 1, 1) && !ret(Socket.Upgrading, 1) && !ret(Socket.Upgraded, 1) && ret((*server).CreateTransport, 1, 1) == nil && arg(Socket.MaybeUpgrade, 1, transport) == ret((*server).CreateTransport, 1, 0) && calls((*wtgo.Session).CloseWithError) == 0)
+//@   ensures [C08.wt.admitted] gated && ret((*types.Map).Load, 1, 1) && !ret(Socket.Upgrading, 1) && !ret(Socket.Upgraded, 1) && ret((*server).CreateTransport, 1, 1) == nil ==> calls(Socket.MaybeUpgrade) == 1 && arg(Socket.MaybeUpgrade, 1, this) == ret((*types.Map).Load, 1, 0)
 
 //@ func (*server).HandleUpgrade$1(codeMessage, errorContext)
 //@   props C10, C05
